@@ -673,7 +673,7 @@ def _install_fold_hooks() -> None:
             r = orig(expr, cur_mod_id)
         finally:
             _fold_depth -= 1
-        if _fold_depth == 0 and _fold_sink is not None:
+        if _fold_depth == 0 and _fold_sink is not None and cur_mod_id == "m":   # typeshed modules are analysed too
             _fold_sink.append({"who": "mypy", "line": expr.line, "col": expr.column, "eline": expr.end_line,
                                "ecol": expr.end_column, "val": _val(r)})
         return r
@@ -711,7 +711,7 @@ def _install_mypyc_fold_hooks() -> None:
             r = orig(builder, expr)
         finally:
             _fold_depth -= 1
-        if _fold_depth == 0 and _fold_sink is not None:
+        if _fold_depth == 0 and _fold_sink is not None and getattr(builder, "module_name", "m") == "m":
             _fold_sink.append({"who": "mypyc", "line": expr.line, "col": expr.column, "eline": expr.end_line,
                                "ecol": expr.end_column, "val": _val(r)})
         return r
@@ -866,15 +866,21 @@ def fold_batch(exprs: list[str], flags: list[str], mypyc: bool = False, decls: l
     return out
 
 
-def _mypyc_ir(lines: list[str]) -> dict[str, Any]:
-    """Type check `lines` as module m (mypyc settings) and run mypyc's real IR builder with the fold recorder on."""
-    global _fold_sink
-    _install_mypyc_fold_hooks()
-    from mypyc.errors import Errors
-    from mypyc.irbuild.main import build_ir
-    from mypyc.irbuild.mapper import Mapper
-    from mypyc.options import CompilerOptions
+def _subexprs(e: Any) -> list[Any]:
+    from mypy.nodes import ComparisonExpr, OpExpr, UnaryExpr
+    out = [e]
+    if isinstance(e, OpExpr):
+        out += _subexprs(e.left) + _subexprs(e.right)
+    elif isinstance(e, UnaryExpr):
+        out += _subexprs(e.expr)
+    elif isinstance(e, ComparisonExpr):
+        for o in e.operands:
+            out += _subexprs(o)
+    return out
 
+
+def _mypyc_typecheck(lines: list[str]) -> dict[str, Any]:
+    """Type check `lines` as module m with the settings mypyc uses (ASTs and types kept)."""
     def mut(options: Any) -> None:
         options.export_types = True
         options.preserve_asts = True
@@ -885,9 +891,20 @@ def _mypyc_ir(lines: list[str]) -> dict[str, Any]:
     fail = _failure(b)
     if fail or b["result"] is None:
         return {"fail": fail or {"kind": "compile_error", "msgs": b["msgs"][:5]}}
-    res = b["result"]
-    if res.errors:
-        return {"fail": {"kind": "type-errors", "msgs": res.errors[:5]}}
+    if b["result"].errors:
+        return {"fail": {"kind": "type-errors", "msgs": b["result"].errors[:5]}}
+    return {"res": b["result"], "fail": None}
+
+
+def _mypyc_run_ir(res: Any) -> dict[str, Any]:
+    """mypyc's real IR builder on a type-checked module, with the fold recorder on."""
+    global _fold_sink
+    _install_mypyc_fold_hooks()
+    from mypyc.errors import Errors
+    from mypyc.irbuild.main import build_ir
+    from mypyc.irbuild.mapper import Mapper
+    from mypyc.options import CompilerOptions
+
     errors = Errors(res.manager.options)
     _fold_sink = []
     try:
@@ -896,35 +913,42 @@ def _mypyc_ir(lines: list[str]) -> dict[str, Any]:
         except BaseException as e:
             tb = traceback.format_exc()[-6000:]
             first_tb = tb.split("During handling of the above exception")[0]
-            return {"fail": {"kind": "crash", "exc": type(e).__name__, "func": inproc.classify_exc(first_tb),
+            key = inproc.classify_exc(first_tb)
+            return {"fail": {"kind": "crash", "exc": key.split("@")[0], "func": key.split(":")[-1], "outer_exc": type(e).__name__,
                              "msg": str(e)[:200], "tb": tb[-3000:]}}
     finally:
         sink, _fold_sink = _fold_sink, None
     return {"sink": sink, "ir_errors": errors.new_messages()[:3], "fail": None}
 
 
+def _mypyc_ir(lines: list[str]) -> dict[str, Any]:
+    tc = _mypyc_typecheck(lines)
+    if tc["fail"]:
+        return tc
+    return _mypyc_run_ir(tc["res"])
+
+
 def _mypyc_fold(head: list[str], exprs: list[str], keep: list[int]) -> dict[str, Any]:
-    from mypy.errors import Errors as MErrors
     from mypy.nodes import AssignmentStmt
-    from mypy.options import Options
-    from mypy.parse import parse
     from mypyc.irbuild import constant_fold as MCF
 
     _install_mypyc_fold_hooks()
     first = len(head) + 1
     lines = head + [f"X{i}: Final = {exprs[i]}" for i in keep]
-    # pre-pass: lines on which mypyc's real constant_fold_expr raises (an exception aborts the whole IR build)
-    popts = Options()
-    parsed = parse(("\n".join(lines) + "\n").encode(), "m.py", "m", MErrors(popts), popts)
-    tree = parsed[0] if isinstance(parsed, tuple) else parsed
+    tc = _mypyc_typecheck(lines)
+    if tc["fail"]:
+        return {"fail": tc["fail"], "crashed": []}
+    # pre-pass on the analysed tree (Final references are bound): lines on which mypyc's real constant_fold_expr raises.
+    # An exception aborts the whole IR build, so those lines are reported and left out of the module that is built.
     crashed: list[dict[str, Any]] = []
     confirmed: dict[tuple[Any, Any], Any] = {}
     drop: set[int] = set()
-    for st in tree.defs:
+    for st in tc["res"].files["m"].defs:
         if not isinstance(st, AssignmentStmt) or st.line < first:
             continue
         try:
-            MCF.constant_fold_expr(None, st.rvalue)  # type: ignore[arg-type]
+            for sub_expr in _subexprs(st.rvalue):   # the IR builder also folds operands of expressions that did not fold
+                MCF.constant_fold_expr(None, sub_expr)  # type: ignore[arg-type]
         except BaseException as e:
             tb = traceback.extract_tb(e.__traceback__)
             inner = next((fr for fr in reversed(tb) if "/mypy/" in fr.filename or "/mypyc/" in fr.filename), None)
@@ -938,10 +962,16 @@ def _mypyc_fold(head: list[str], exprs: list[str], keep: list[int]) -> dict[str,
             rec["confirmed_by_real_ir_build"] = confirmed[mech]
             crashed.append(rec)
             drop.add(st.line)
-    kept_lines = [ln for k, ln in enumerate(lines, 1) if k not in drop]
-    kept_idx = [keep[k - first] for k in range(first, len(lines) + 1) if k not in drop]
+    if drop:
+        kept_lines = [ln for k, ln in enumerate(lines, 1) if k not in drop]
+        kept_idx = [keep[k - first] for k in range(first, len(lines) + 1) if k not in drop]
+        tc = _mypyc_typecheck(kept_lines)
+        if tc["fail"]:
+            return {"fail": tc["fail"], "crashed": crashed}
+    else:
+        kept_lines, kept_idx = lines, list(keep)
     rt, ns = _runtime_lines(kept_lines, first)
-    ir = _mypyc_ir(kept_lines)
+    ir = _mypyc_run_ir(tc["res"])
     if ir.get("fail"):
         return {"fail": ir["fail"], "crashed": crashed}
     recs = []
